@@ -14,8 +14,8 @@ import (
 	"syscall"
 	"testing"
 
-	"github.com/sirupsen/logrus"
 	vtime "github.com/nuts-foundation/nuts-node/verifshim/vtime"
+	"github.com/sirupsen/logrus"
 
 	"verif/ev"
 )
@@ -134,9 +134,66 @@ func vc07ShapeKey(prevs [][]int, a, b uint32) string {
 	return best
 }
 
+// vc07Symmetric tells whether a relabelling of the transactions maps the shape onto itself and A onto B and B onto A:
+// the two nodes are then mirror images, and a first fault at node 1 is the mirror image of the same fault at node 0.
+func vc07Symmetric(prevs [][]int, a, b uint32) bool {
+	n := len(prevs) - 1
+	norm := func(pp [][]int) string {
+		cp := make([][]int, len(pp))
+		for i := range pp {
+			cp[i] = append([]int{}, pp[i]...)
+			sort.Ints(cp[i])
+		}
+		return fmt.Sprint(cp)
+	}
+	want := fmt.Sprintf("%s|%d|%d", norm(prevs), b, a)
+	perm := make([]int, n+1)
+	used := make([]bool, n+1)
+	found := false
+	var rec func(pos int)
+	rec = func(pos int) {
+		if found {
+			return
+		}
+		if pos > n {
+			np := make([][]int, n+1)
+			for old := 0; old <= n; old++ {
+				var ps []int
+				for _, p := range prevs[old] {
+					ps = append(ps, perm[p])
+				}
+				np[perm[old]] = ps
+			}
+			mapMask := func(m uint32) uint32 {
+				var r uint32
+				for old := 0; old <= n; old++ {
+					if m&(1<<uint(old)) != 0 {
+						r |= 1 << uint(perm[old])
+					}
+				}
+				return r
+			}
+			if fmt.Sprintf("%s|%d|%d", norm(np), mapMask(a), mapMask(b)) == want {
+				found = true
+			}
+			return
+		}
+		for v := 1; v <= n; v++ {
+			if !used[v] {
+				used[v] = true
+				perm[pos] = v
+				rec(pos + 1)
+				used[v] = false
+			}
+		}
+	}
+	rec(1)
+	return found
+}
+
 type vc07Pair struct {
-	Shape  [][]int `json:"shape"`  // prevs per transaction (index 0 = root)
-	A      uint32  `json:"a"`      // bit i set: node A starts with transaction i
+	Shape  [][]int `json:"shape"` // prevs per transaction (index 0 = root)
+	A      uint32  `json:"a"`     // bit i set: node A starts with transaction i
 	B      uint32  `json:"b"`
 	Queued bool    `json:"queued"` // true: the non-shared transactions are created AFTER the connection is up (they sit in the gossip queues)
 }
@@ -215,9 +272,9 @@ type vc07Bounds struct {
 	// pair can be searched as six independent jobs (each de-duplicates within itself).
 	FirstFault string
 	Budget     int // fault events per history
-	PoolTick int // tick(n) is enabled while fewer than this many original messages are in flight (bounds delay)
-	MaxDepth int
-	Rmax     int
+	PoolTick   int // tick(n) is enabled while fewer than this many original messages are in flight (bounds delay)
+	MaxDepth   int
+	Rmax       int
 }
 
 // enabled lists the events of the current state. Faults (drop, dup, lexpire) only while budget remains.
@@ -256,8 +313,23 @@ func (w *vc07World) enabled(b vc07Bounds) []vc07Event {
 		}
 	}
 	for n := 0; n < 2; n++ {
-		if !gossipInFlight[n] && originals < b.PoolTick {
+		if w.nodes[n].connected && !gossipInFlight[n] && originals < b.PoolTick {
 			evs = append(evs, vc07Event{K: "tick", N: n})
+		}
+		if !w.nodes[n].connected {
+			evs = append(evs, vc07Event{K: "reconnect", N: n})
+		}
+	}
+	if w.faults < b.Budget && w.linkUp() {
+		// the classes of a first stream loss are split once more: with messages in flight (busy) or without (idle)
+		phase := "idle"
+		if len(w.pool) > 0 {
+			phase = "busy"
+		}
+		for n := 0; n <= 2; n++ {
+			if w.faults > 0 || b.FirstFault == "" || b.FirstFault == fmt.Sprintf("disc@%d:%s", n, phase) {
+				evs = append(evs, vc07Event{K: "disc", N: n})
+			}
 		}
 	}
 	w.setClock()
@@ -595,7 +667,7 @@ func TestVerifC07Small(t *testing.T) {
 		"(empty gossip queues) and, up to the union size given under bounds, a second time with them created after it (queued for gossip). From each pair a breadth-first search over event histories of the two REAL protocol " +
 		"instances to quiescence: deliver(m) for any in-flight m, tick(node), expire(node) and, charged to a budget, drop(m), dup(m) (deliver and leave a copy in flight " +
 		"for arbitrarily late re-delivery; stale(m) is the delivery of such a copy at any later moment), lexpire(node) (expiry while messages are in flight). " +
-		"A pair with a fault budget is searched as six jobs, one per class (kind, node) of the FIRST fault; states are merged by canonical form (App. B.3) within a job, " +
+		"A pair with a fault budget is searched as nine jobs, one per class (kind, node) of the FIRST fault (nine classes, the three stream-loss classes split again into idle/busy; for a pair whose nodes are mirror images the classes at node 1 are skipped; quick searches stream loss on the one-way pairs only); states are merged by canonical form (App. B.3) within a job, " +
 		"so the state and transition counts are sums over jobs. A case is (pair, first-fault class); non-trivial when A != B.")
 	queuedUpTo := 3
 	if r.Thorough() {
@@ -629,13 +701,13 @@ func TestVerifC07Small(t *testing.T) {
 	est := func(twoWay, queued bool, kind string, node int) int {
 		switch {
 		case twoWay && !queued:
-			return map[string]int{"drop": 11800, "dup": 17500, "lexpire": 4300}[kind]
+			return map[string]int{"drop": 11800, "dup": 17500, "lexpire": 4300, "disc": 25500}[kind]
 		case twoWay:
-			return map[string]int{"drop": 6500, "dup": 7200, "lexpire": 2400}[kind]
+			return map[string]int{"drop": 6500, "dup": 7200, "lexpire": 2400, "disc": 14000}[kind]
 		case !queued:
-			return map[string]int{"drop": 1440, "dup": 1810 + 570*node, "lexpire": 720}[kind]
+			return map[string]int{"drop": 1440, "dup": 1810 + 570*(node%2), "lexpire": 720, "disc": 2800}[kind]
 		}
-		return map[string]int{"drop": 1040 - 200*node, "dup": 1190 + 180*node, "lexpire": 540 - 120*node}[kind]
+		return map[string]int{"drop": 1040 - 200*(node%2), "dup": 1190 + 180*(node%2), "lexpire": 540 - 120*(node%2), "disc": 1900}[kind]
 	}
 	for i, p := range pairs {
 		bud := budgetFor(p)
@@ -650,11 +722,29 @@ func TestVerifC07Small(t *testing.T) {
 			}
 			jobs = append(jobs, job{pair: i, budget: bud, cost: c})
 		default:
-			for _, k := range []string{"drop", "dup", "lexpire"} {
-				for n := 0; n < 2; n++ {
+			symmetric := vc07Symmetric(p.Shape, p.A, p.B)
+			for _, k := range []string{"drop", "dup", "lexpire", "disc"} {
+				for n := 0; n < 3; n++ {
+					if n == 2 && k != "disc" {
+						continue
+					}
+					if n == 1 && symmetric {
+						continue // mirror image of the class at node 0
+					}
+					if k == "disc" && !r.Thorough() && (twoWay || (n < 2 && p.Queued)) {
+						// quick: stream loss is searched on the one-way pairs (one-sided loss where the differing transactions predate
+						// the connection), and along structured scenarios in part limits; two-way pairs (~25 000 transitions per class) in thorough
+						continue
+					}
 					c := est(twoWay, p.Queued, k, n)
 					if bud == 2 {
 						c *= 25
+					}
+					if k == "disc" {
+						for _, ph := range []string{"idle", "busy"} {
+							jobs = append(jobs, job{pair: i, first: fmt.Sprintf("%s@%d:%s", k, n, ph), budget: bud, cost: c/2 + c/10})
+						}
+						continue
 					}
 					jobs = append(jobs, job{pair: i, first: fmt.Sprintf("%s@%d", k, n), budget: bud, cost: c})
 				}
